@@ -2,3 +2,5 @@ import DurableModel
 import Proofs.Lock
 import Proofs.Serdes
 import Proofs.Batcher
+import Proofs.Policy
+import Proofs.Strategy
